@@ -84,7 +84,7 @@ func pairKind(id int, name string, mk func() mangos.ProtocolBase) *l1kit.Kind {
 		case w < 17:
 			return append([]byte{0, 0, 1, 0}, pl...) // 256 hops
 		case w < 18:
-			return pl[:r.Intn(4)] // too short
+			return pl[:minInt(len(pl), r.Intn(4))] // too short
 		default:
 			return append([]byte{byte(1 + r.Intn(255)), 0, 0, 1}, pl...)
 		}
@@ -330,4 +330,11 @@ func main() {
 	}
 	addScripts(kinds)
 	l1run.Main(l1kit.Gen(kinds))
+}
+
+func minInt(a, b int) int {
+	if a < b {
+		return a
+	}
+	return b
 }
